@@ -391,8 +391,10 @@ class MixGrid(System):
                         for i2 in inl_all:
                             for q in range(nQ): pts.add((rk, ex, (i1, i2), q))
             kdev3 = 3
-        bases3 = [(0, 0, 1, 1, rotc(1), 3, 2, rotc(0), 5, 0, rotc(2), 1), (2, 1, 4, 3, rotc(3), 0, 1, rotc(5), 2, 2, rotc(1), 2),
-                  (1, 0, 6, 1, rotc(4), 5, 0, rotc(1), 1, 1, rotc(0), 3)]
+        # n = 3: fixed base points (not rotated by the seed), so that quick (<= 2 deviations) is a subset of thorough (<= 3 deviations)
+        # whatever seeds the two tiers are run with; the n = 2 bases may rotate because thorough holds the full n = 2 product
+        bases3 = [(0, 0, 1, 1, 1, 3, 2, 0, 5, 0, 2, 1), (2, 1, 4, 3, 3, 0, 1, 5, 2, 2, 1, 2),
+                  (1, 0, 6, 1, 4, 5, 0, 1, 1, 1, 0, 3)]
         alph3 = [3, 2, nT, nP, nC, nT, nP, nC, nT, nP, nC, nQ]
         for b in bases3:
             for p in deviations(alph3, b, kdev3):
@@ -556,6 +558,9 @@ class SetterGrid(System):
 class History(System):
     """two streams, sequences of energy-balance operations; complete stream digests as canonical state"""
     nontrivial_per_config = True
+    #: canon() is the complete concrete state of both streams (+ solver scratch); the config only selects the initial state, so equal
+    #: states reached from different configs have identical futures and share one expansion
+    merge_across_configs = True
 
     def __init__(self, name, dq, dt, rich=True):
         self.name = name; self._dq, self._dt = dq, dt
@@ -564,7 +569,7 @@ class History(System):
     def warm(self): _warm()
     def reset_globals(self): fx.reset_globals(_thermo())
     def depth(self, tier): return self._dq if tier == 'quick' else self._dt
-    def time_cap(self, tier): return 240 if tier == 'quick' else 900
+    def time_cap(self, tier): return 400 if tier == 'quick' else 1200
 
     def configs(self, tier, seed):
         cf = [('l', 'l'), ('l', 'g'), ('l', 'm'), ('m', 'l'), ('g', 'g')]
